@@ -266,6 +266,15 @@ Theorem uniform_real_range_thm : forall (rn : R -> R) (F : R -> Prop),
 Proof. exact uniform_real_range. Qed.
 Print Assumptions uniform_real_range_thm.
 
+(* generic in the GENERATOR: any range [gmin, gmax] with gmin < gmax (min() need not be 0, the range need not fill the
+   result type), any sample in it, any rounding as above *)
+Theorem uniform_real_any_generator_range : forall (rn : R -> R) (F : R -> Prop),
+  (forall x y, x <= y -> rn x <= rn y) -> (forall x, F (rn x)) -> (forall x, F x -> rn x = x) -> F 0 -> F 1 ->
+  forall l u gmin gmax k, F l -> l <= u -> (gmin < gmax)%Z -> (gmin <= k <= gmax)%Z ->
+  l <= uniform_real_g rn l u gmin gmax k <= uniform_real_hi rn l u.
+Proof. exact uniform_real_g_range. Qed.
+Print Assumptions uniform_real_any_generator_range.
+
 (* the denormal regime is NOT excluded by the hypotheses above (FLT rounding is monotone and the identity on
    the format there too; only overflow is outside the R model): for every representable width 2^e, denormal
    widths included, a range [0, 2^e] is respected exactly by both distributions *)
